@@ -6,20 +6,21 @@ import vlib
 PID = "C18"
 MANIFEST = dict(
         spec="Linepart.tla (+MC_Linepart, Gen_Linepart, Trace_Linepart)",
-        text="TLC checks exhaustively, for every coordinate sequence over {below,min,inside,max,above} up to length 7 (thorough 8; "
-             "ranges [0,4], degenerate [2,2] and inverted [4,0]) and, with caller-chosen chunk sizes, joins and a scaled per-part "
-             "limit, up to length 5 (6), that the transcribed splitting/join/C++ apply design makes progress, that the raw counts "
-             "partition the data, that every in-range point is drawn in exactly its own part, that no out-of-range point is "
-             "drawn, that cut/trim codes lie within one 16-bit code of the exact boundary crossing and that joins keep the totals. "
-             "Every transition of these models is replayed into mpt_linepart_linear/_join/_code (library build and the same sources "
-             "compiled with a scaled limit) and into the C++ linepart::array::set/apply and polyline::set/part; a result that "
-             "differs from the design is judged by TLC against the meaning (Trace_Linepart). Seeded runs with large scaled-integer "
-             "coordinates (crossings next to the boundary, equal neighbours) and runs of 65533..131072 points recorded from the "
-             "real code are validated by TLC against the same meaning.",
+        text="TLC checks exhaustively, for every coordinate sequence over {below,min,inside,max,above} up to length 6 (thorough 8; "
+             "plus degenerate [2,2] and inverted [4,0] ranges to length 6), with caller-chosen chunk sizes, joins and a scaled "
+             "per-part limit up to length 4 (6), and for every pair of such sequences up to length 3 (4) as two dimensions, that "
+             "the transcribed splitting/join/C++ set+apply design makes progress, that the raw counts partition the data, that "
+             "every in-range point is drawn in exactly its own part, that no out-of-range point is drawn, that cut/trim codes "
+             "lie within one 16-bit code of the exact boundary crossing and that joins keep the totals. Every transition of these "
+             "models is replayed into mpt_linepart_linear/_join/_code (library build and the same sources compiled with a scaled "
+             "limit) and into the C++ linepart::array::set/apply/join and polyline::set/part (coordinates of points(), line ends "
+             "on the boundary); a result that differs from the design is judged by TLC against the meaning (Trace_Linepart). "
+             "Seeded runs with scaled-integer coordinates up to 2^22 (crossings next to the boundary, equal neighbours, second "
+             "dimension) and templated runs of 65532..131071 points recorded from the real code are validated by TLC.",
         note="Trusted: TLC, the drivers (projection only: integers to doubles exactly, struct fields copied). Fractions are decided "
-             "exactly in integer arithmetic for coordinates below 2^23 (the double computation is exact enough that the 16-bit code "
-             "is determined); rounding direction for general doubles, the logarithmic transform and the merge of several "
-             "dimensions in apply() are not decided. Bounded model; memory safety observed by ASan on each executed call.",
+             "exactly in integer arithmetic for coordinates below 2^23 (the 16-bit code is then determined); rounding direction for "
+             "general doubles, the logarithmic transform and, for two dimensions, where the line crosses the boundary are not "
+             "decided (points only). Bounded model; memory safety observed by ASan on each executed call.",
         technique="TLA+ spec + TLC exhaustive check; TLC-generated behaviours replayed into the C and C++ code; TLC trace validation of recorded runs",
         design="5/C18")
 
@@ -46,25 +47,34 @@ def is_cxx(beh):
     return any(s["a"] in CXX_ACTIONS for s in beh)
 
 
-def run_batched(exe, behs, timeout=900):
-    """Run behaviours in growing batches; stop early when a batch shows several faults
-    (every hang costs the alarm time).  Records are numbered by behaviour index."""
+def run_batched(exe, behs, timeout=1200):
+    """Run behaviours in growing batches; stop early when hangs pile up (each costs the driver's alarm
+    time).  A behaviour that hung is executed once more on its own before it counts (loaded machine).
+    Records are numbered by behaviour index; returns (records, number of behaviours run)."""
     out = []
     pos = 0
     size = 20
-    faults = 0
+    hangs = 0
     while pos < len(behs):
         part = behs[pos:pos + size]
         recs, _ = vlib.run_driver(exe, vlib.to_script(part), timeout=timeout)
+        hung = sorted({r["b"] for r in recs if r.get("a") == "Hang"})
+        if hung and len(hung) <= 10:
+            again, _ = vlib.run_driver(exe, vlib.to_script([part[b] for b in hung]), timeout=timeout)
+            recs = [r for r in recs if r.get("b") not in hung]
+            for r in again:
+                if isinstance(r.get("b"), int) and r["b"] < len(hung):
+                    r["b"] = hung[r["b"]]
+                    recs.append(r)
         for r in recs:
             if isinstance(r.get("b"), int):
                 r["b"] += pos
-            if r.get("a") in ("Crash", "Hang"):
-                faults += 1
+            if r.get("a") == "Hang":
+                hangs += 1
             out.append(r)
         pos += len(part)
-        if faults >= 5:
-            break                      # the remaining behaviours are reported as not run
+        if hangs >= 3:
+            break                      # the remaining behaviours are not run
         size = min(size * 10, 50000)
     return out, pos
 
